@@ -240,3 +240,38 @@ Example C17_example :
   /\ chk_C17 C17_ex_cfg C17_ex_h (map gw_olist (gw_run0 C17_ex_cfg C17_ex_h)) = None
   /\ gw_bind_ok C17_ex_cfg.
 Proof. repeat split; vm_compute; reflexivity. Qed.
+
+(* ---- WITH(STATETTL=...): the reaper of idle groups (Model/GlobalTTL.v).
+   gt_run0 c ttl ops : the window with a reaper, over a history of rows, passages of time and reaper ticks
+   gt_quiet0 ttl ops : no group that ever had a row is idle for longer than ttl at any tick of ops *)
+From SV Require Import Model.GlobalTTL Proofs.GlobalTTLProofs.
+
+(* a tick removes exactly the groups whose last row is older than the TTL; every other group keeps its state *)
+Theorem C17_statettl_reaps_exactly_idle_groups : forall ttl s k, (0 < ttl)%Z ->
+  gw_find k (gt_reap ttl s) = if (gt_age_of k (snd s) <=? ttl)%Z then gw_find k (fst s) else None.
+Proof. exact gt_reap_find. Qed.
+Print Assumptions C17_statettl_reaps_exactly_idle_groups.
+
+(* every row makes its own group fresh again (also a row in the middle of a cycle), and nobody else's *)
+Theorem C17_statettl_row_refreshes_own_group : forall k a,
+  gt_age_of k (gt_touch k a) = 0%Z /\
+  forall k2, gw_key_eqb k k2 = false -> gt_age_of k2 (gt_touch k a) = gt_age_of k2 a.
+Proof. exact (fun k a => conj (gt_touch_same k a) (fun k2 H => gt_touch_other k k2 a H)). Qed.
+Print Assumptions C17_statettl_row_refreshes_own_group.
+
+(* while every group keeps receiving rows within the TTL, the reaper is invisible: C17 holds as without it *)
+Theorem C17_statettl_invisible_for_active_groups : forall c ttl ops,
+  gt_quiet0 ttl ops = true -> gt_run0 c ttl ops = gw_run0 c (gt_rows ops).
+Proof. exact gt_run_quiet. Qed.
+Print Assumptions C17_statettl_invisible_for_active_groups.
+
+(* STATETTL absent (0): no reaper *)
+Theorem C17_statettl_off : forall c ttl ops, (ttl <= 0)%Z -> gt_run0 c ttl ops = gw_run0 c (gt_rows ops).
+Proof. exact gt_run_off. Qed.
+Print Assumptions C17_statettl_off.
+
+Example C17_statettl_example :
+  (gt_quiet0 10500 gt_w_active = true /\
+   gt_run0 gt_w_cfg 10500 gt_w_active = [None; None; Some ([1%N], [Some (3 # 1)%Q])]) /\
+  (gt_quiet0 10500 gt_w_idle = false /\ gt_run0 gt_w_cfg 10500 gt_w_idle = [None; None; None]).
+Proof. exact (conj gt_w_active_quiet gt_w_idle_reaped). Qed.
